@@ -86,7 +86,8 @@ PROPS = {
     'C08': dict(
         title='All lookup entry points agree with lookup() and subscriptions()',
         contracts=['C04_lookup', 'C05_cache', 'C08_entry'], falsifier='C08', modes=['py', 'c'], level='other',
-        cfun=['C05_c'], cfun_only={'C05_c': ['_lookup', '_lookup1', '_adapter_hook', '_lookupAll', '_subscriptions']},
+        cfun=['C05_c', 'C06_c'], cfun_only={'C05_c': ['_lookup', '_lookup1', '_adapter_hook', '_lookupAll', '_subscriptions'],
+                                            'C06_c': ['VB_lookup', 'VB_lookup1', 'VB_adapter_hook', 'VB_queryAdapter', 'VB_lookupAll', 'VB_subscriptions']},
         only={'C04_lookup': ['adapter.py:_lookupAll']},
         level_text='Verified from the real bodies (Python reference): _lookupAll against the recursive override specification; '
                    'LookupBase.lookup returns the cached value or what the uncached search answers, None meaning the default by identity, '
@@ -122,7 +123,7 @@ PROPS = {
     'C05': dict(
         title='Lookup caches are transparent: answers never depend on earlier lookups',
         contracts=['C04_lookup', 'C02_spec', 'C09_registry', 'C05_cache', 'C06_verifying'], falsifier='C05', modes=['py', 'c'], level='other',
-        cfun=['C05_c'],
+        cfun=['C05_c', 'C06_c'],
         cfunctions=['_subcache', '_getcache', '_lookup', '_lookup1', '_adapter_hook', '_lookupAll', '_subscriptions'],
         creturns={'_subcache': 'borrowed', '_getcache': 'borrowed'},
         only={'C04_lookup': ['adapter.py:AdapterLookupBase._uncached_lookup'],
@@ -153,6 +154,7 @@ PROPS = {
     'C06': dict(
         title='Registries consult exactly their current base chain, in resolution order',
         contracts=['C04_lookup', 'C09_registry', 'C06_verifying'], falsifier='C06', modes=['py', 'c'], level='other',
+        cfun=['C06_c'],
         only={'C04_lookup': ['adapter.py:AdapterLookupBase._uncached_lookup'],
               'C09_registry': ['adapter.py:BaseAdapterRegistry.changed', 'adapter.py:AdapterRegistry.changed',
                                'adapter.py:BaseAdapterRegistry._setBases', 'adapter.py:AdapterRegistry._setBases',
@@ -334,7 +336,7 @@ PROPS = {
     ),
     'C10': dict(
         title='The C accelerator is observationally equivalent to the Python reference',
-        contracts=[], cfun=['C12_c', 'C14_c', 'C05_c'], falsifier='C10', modes=['py', 'c'], level='other', differential=True,
+        contracts=[], cfun=['C12_c', 'C14_c', 'C05_c', 'C06_c'], falsifier='C10', modes=['py', 'c'], level='other', differential=True,
         cfunctions=['_subcache', '_getcache', '_lookup', '_lookup1', '_adapter_hook', '_lookupAll', '_subscriptions', 'IB__adapt__', 'SB_extends', 'SB_providedBy', 'SB_implementedBy'],
         creturns={'_subcache': 'borrowed', '_getcache': 'borrowed'},
         level_text='Bounded differential check: six generated API programs (about 18k steps: registry chains 3-4 deep of both flavours with a mutation at every level and warm leaf caches, specification queries, comparison and hashing, '
